@@ -1,7 +1,14 @@
-"""Watchdog stall signature (M8) and sanitizer lanes (M9)."""
+"""Watchdog stall signature (M8) and sanitizer lanes (M9) for the check driver."""
+import json
 import os
+import re
 import subprocess
 import time
+
+HARNESS = os.path.join(os.path.dirname(os.path.dirname(os.path.abspath(__file__))), "harness")
+TARGET = "x86_64-unknown-linux-gnu"
+MIRIFLAGS = ("-Zmiri-disable-isolation -Zmiri-permissive-provenance -Zmiri-disable-stacked-borrows "
+             "-Zmiri-disable-data-race-detector -Zmiri-ignore-leaks -Zmiri-no-short-fd-operations")
 
 
 def _thread_cpu(pid):
@@ -36,5 +43,261 @@ def stall_signature(pid):
     return {"stalled": not progressed and not runnable, "threads": len(b), "progressed": len(progressed), "backtrace": bt}
 
 
+# ---------------------------------------------------------------------------- builds
+
+def _build(lane, env):
+    """Returns (binary path or None for miri, seconds)."""
+    t0 = time.time()
+    e = dict(env)
+    if lane == "asan":
+        e["RUSTFLAGS"] = "-Zsanitizer=address -Cforce-frame-pointers=yes"
+        e["CARGO_TARGET_DIR"] = os.path.join(HARNESS, "target-asan")
+        cmd = ["cargo", "+nightly", "build", "--release", "--offline", "--target", TARGET, "--manifest-path", os.path.join(HARNESS, "Cargo.toml")]
+        binary = os.path.join(HARNESS, "target-asan", TARGET, "release", "fvh")
+    elif lane == "tsan":
+        e["RUSTFLAGS"] = "-Zsanitizer=thread"
+        e["CARGO_TARGET_DIR"] = os.path.join(HARNESS, "target-tsan")
+        cmd = ["cargo", "+nightly", "build", "--release", "--offline", "-Zbuild-std", "--target", TARGET, "--manifest-path", os.path.join(HARNESS, "Cargo.toml")]
+        binary = os.path.join(HARNESS, "target-tsan", TARGET, "release", "fvh")
+    elif lane == "memcheck":
+        # plain release profile without debug assertions (debug_assert! can flip verdicts); line tables kept
+        cmd = ["cargo", "build", "--profile", "plain", "--offline", "--manifest-path", os.path.join(HARNESS, "Cargo.toml")]
+        binary = os.path.join(HARNESS, "target", "plain", "fvh")
+    elif lane == "miri":
+        e["MIRIFLAGS"] = MIRIFLAGS
+        e["CARGO_TARGET_DIR"] = os.path.join(HARNESS, "target-miri")
+        # building = a first tiny run
+        cmd = ["cargo", "+nightly", "miri", "run", "--offline", "--manifest-path", os.path.join(HARNESS, "Cargo.toml"), "--", "selftest"]
+        binary = None
+    else:
+        raise ValueError(lane)
+    p = subprocess.run(cmd, env=e, stdout=subprocess.PIPE, stderr=subprocess.STDOUT, text=True, cwd=HARNESS)
+    if p.returncode != 0:
+        return None, time.time() - t0, p.stdout[-3000:]
+    return binary, time.time() - t0, ""
+
+
+# ---------------------------------------------------------------------------- report parsing
+
+FRAME = re.compile(r"#(\d+) (?:0x[0-9a-f]+ (?:in )?)?(.*?) (/\S+?):(\d+)(?::\d+)?(?: |$)")
+STD_PATH = ("/rustlib/", "/rustc/", "library/std", "library/core", "library/alloc", "compiler-rt", "sanitizer_common", "tsan_", "asan_")
+
+
+def _stacks(block):
+    """Split a sanitizer report block into stacks: list of lists of (func, path, line)."""
+    stacks, cur = [], []
+    for line in block.splitlines():
+        m = FRAME.search(line)
+        if m:
+            if m.group(1) == "0" and cur:
+                stacks.append(cur)
+                cur = []
+            cur.append((m.group(2), m.group(3), int(m.group(4))))
+        elif cur and not line.strip():
+            stacks.append(cur)
+            cur = []
+    if cur:
+        stacks.append(cur)
+    return stacks
+
+
+def _first_user_frame(stack):
+    for func, path, line in stack:
+        if any(s in path for s in STD_PATH):
+            continue
+        return func, path, line
+    return None
+
+
+def classify(block, kind):
+    """in_scope: the access (asan/memcheck: any of the top 8 frames of any stack; tsan: the first
+    non-std frame of either racing access) is in /repo/src. Reports entirely inside third-party
+    crates are out of scope (listed, not failed)."""
+    stacks = _stacks(block)
+    where = None
+    if kind == "tsan":
+        tops = [_first_user_frame(s) for s in stacks[:2]]
+        for t in tops:
+            if t and t[1].startswith("/repo/src"):
+                where = t
+                break
+        in_scope = where is not None
+        if not in_scope:
+            where = next((t for t in tops if t), None)
+    else:
+        in_scope = False
+        for s in stacks:
+            for func, path, line in s[:8]:
+                if path.startswith("/repo/src"):
+                    in_scope = True
+                    where = where or (func, path, line)
+        if where is None:
+            where = next((f for s in stacks for f in s[:1]), None)
+    sig_where = f"{os.path.basename(where[1])}:{where[0][:60]}" if where else "unknown"
+    return in_scope, sig_where
+
+
+def parse_asan(text):
+    out = []
+    for m in re.finditer(r"==\d+==ERROR: (AddressSanitizer|LeakSanitizer): ([^\n]*)\n(.*?)(?:SUMMARY: [^\n]*|\Z)", text, re.S):
+        tool, head, body = m.group(1), m.group(2), m.group(3)
+        kind = head.split(" on ")[0].split(":")[0].strip()
+        in_scope, where = classify(body, "asan")
+        out.append({"tool": tool, "kind": kind, "in_scope": in_scope, "where": where, "text": (head + "\n" + body)[:2500]})
+    return out
+
+
+def parse_tsan(text):
+    out = []
+    for m in re.finditer(r"WARNING: ThreadSanitizer: ([^\n(]*)[^\n]*\n(.*?)(?:SUMMARY: ThreadSanitizer[^\n]*|\Z)", text, re.S):
+        kind, body = m.group(1).strip(), m.group(2)
+        in_scope, where = classify(body, "tsan")
+        out.append({"tool": "ThreadSanitizer", "kind": kind, "in_scope": in_scope, "where": where, "text": body[:2500]})
+    return out
+
+
+def parse_miri(text):
+    out = []
+    for m in re.finditer(r"error: (Undefined Behavior|unsupported operation|memory leaked|deadlock)[^\n]*\n(.*?)(?:\n\n|\Z)", text, re.S):
+        kind, body = m.group(1), m.group(2)
+        if kind == "unsupported operation":
+            out.append({"tool": "miri", "kind": kind, "in_scope": False, "where": "unsupported", "text": (m.group(0))[:1500], "unsupported": True})
+            continue
+        loc = re.search(r"--> (\S+?):(\d+)", m.group(0))
+        path = loc.group(1) if loc else ""
+        in_scope = "/repo/src" in m.group(0)
+        out.append({"tool": "miri", "kind": kind, "in_scope": in_scope, "where": os.path.basename(path) + (":" + loc.group(2) if loc else ""), "text": m.group(0)[:2500]})
+    return out
+
+
+def parse_memcheck(text):
+    out = []
+    blocks = re.split(r"\n==\d+== \n", text)
+    for b in blocks:
+        head = re.search(r"==\d+== (Invalid (?:read|write|free)[^\n]*|Conditional jump or move depends on uninitialised[^\n]*|Use of uninitialised[^\n]*|Syscall param [^\n]*uninitialised[^\n]*|Mismatched free[^\n]*|Source and destination overlap[^\n]*|Process terminating with[^\n]*SIG(?:SEGV|BUS|ILL)[^\n]*)", b)
+        if not head:
+            continue
+        full = re.findall(r"\(([^()]*?\.rs):(\d+)\)", b)
+        in_scope = False
+        where = None
+        # valgrind runs with --fullpath-after= so paths are complete
+        for name, line in full[:8]:
+            if "repo/src/" in name:
+                in_scope = True
+                where = where or (name, line)
+        out.append({"tool": "memcheck", "kind": head.group(1)[:80], "in_scope": in_scope, "where": f"{where[0]}:{where[1]}" if where else "unknown", "text": b[:2500]})
+    return out
+
+
+# ---------------------------------------------------------------------------- running
+
 def run_lane(inv, prop, tier, seed, scratch, index, env):
-    raise NotImplementedError("sanitizer lanes are registered in lib/plan.py once built")
+    lane = inv["lane"]
+    binary, build_s, err = _build(lane, env)
+    results = []
+    if binary is None and lane != "miri" or err:
+        return [{"engine": f"lane:{lane}", "crashed": "build", "log": err, "cmd": ["build", lane]}]
+    reports = []
+    runs = 0
+    evaluations = 0
+    procs = []
+    for r_index, run in enumerate(inv["runs"]):
+        for shard in range(run.get("shards", 1)):
+            out = os.path.join(scratch, f"{prop}-{lane}-{index}-{r_index}-{shard}.json")
+            args = [run["engine"], "--tier", tier, "--seed", str(seed + shard * 1000 + r_index), "--prop", prop, "--shard", str(shard), "--shards", str(run.get("shards", 1)), "--out", out]
+            for k, v in run.get("args", {}).items():
+                args += ["--" + k, str(v)]
+            e = dict(env)
+            e["VERIF_TMP"] = scratch
+            logpath = os.path.join(scratch, f"{prop}-{lane}-{index}-{r_index}-{shard}.log")
+            if lane == "asan":
+                e["ASAN_OPTIONS"] = "detect_leaks=0:halt_on_error=1:abort_on_error=0:symbolize=1:allocator_may_return_null=1"
+                cmd = [binary] + args
+            elif lane == "tsan":
+                e["TSAN_OPTIONS"] = "halt_on_error=0:report_signal_unsafe=0:second_deadlock_stack=1:history_size=4"
+                cmd = [binary] + args
+            elif lane == "memcheck":
+                cmd = ["valgrind", "--tool=memcheck", "--error-exitcode=0", "--track-origins=no", "--num-callers=20", "--fair-sched=yes", "--fullpath-after=", binary] + args
+            else:
+                e["MIRIFLAGS"] = MIRIFLAGS
+                e["CARGO_TARGET_DIR"] = os.path.join(HARNESS, "target-miri")
+                cmd = ["cargo", "+nightly", "miri", "run", "--offline", "--manifest-path", os.path.join(HARNESS, "Cargo.toml"), "--"] + args
+            log = open(logpath, "w")
+            procs.append((subprocess.Popen(cmd, env=e, stdout=log, stderr=subprocess.STDOUT, cwd=HARNESS), out, logpath, log, cmd, run))
+            if len(procs) >= inv.get("parallel", 8):
+                _collect(procs, lane, reports, results, inv, tier)
+                procs = []
+    _collect(procs, lane, reports, results, inv, tier)
+    for r in results:
+        runs += 1
+        evaluations += r.get("evaluations", 0)
+    # dedupe reports by (tool, kind, where)
+    seen = {}
+    for rep in reports:
+        key = (rep["tool"], rep["kind"], rep["where"], rep["in_scope"])
+        seen.setdefault(key, {"count": 0, "rep": rep})["count"] += 1
+    violations = []
+    out_of_scope = []
+    for (tool, kind, where, in_scope), v in seen.items():
+        if v["rep"].get("unsupported"):
+            continue
+        if in_scope:
+            violations.append({"sig": f"{lane}:{kind}:{where}", "msg": f"{tool} report ({v['count']}x): {kind} at {where}\n{v['rep']['text'][:1800]}",
+                               "replay": {"engine": f"lane:{lane}", "cmd": v["rep"].get("cmd"), "report": v["rep"]["text"]}})
+        else:
+            out_of_scope.append(f"{tool}: {kind} at {where} ({v['count']}x)")
+    lane_result = {
+        "engine": f"lane:{lane}",
+        "evaluations": evaluations,
+        "distinct_nontrivial": sum(r.get("distinct_nontrivial", 0) for r in results if "crashed" not in r and "watchdog" not in r),
+        "rule": f"{lane}: the engines listed in counters re-executed under the tool; in-scope = report whose faulting access / racing access is in /repo/src (top 8 frames for red-zone tools, first non-std frame for races); third-party-internal reports are listed only",
+        "samples": [{"lane": lane, "runs": [f"{r['engine']} {r.get('args', {})}" for r in inv["runs"]], "out_of_scope_reports": out_of_scope[:6]}],
+        "violations": violations + [v for r in results for v in r.get("violations", [])],
+        "inconclusive": [i for r in results for i in r.get("inconclusive", [])][:10],
+        "counters": {f"{lane}_runs": runs, f"{lane}_reports_in_scope": len(violations), f"{lane}_reports_out_of_scope": len(out_of_scope), f"{lane}_build_s": int(build_s),
+                     **{f"{lane}_{k}": v for r in results for k, v in r.get("counters", {}).items() if k.startswith("sched_") and k.endswith("_exercised")}},
+        "notes": [f"{lane} flags: " + (MIRIFLAGS if lane == "miri" else {"asan": "-Zsanitizer=address, detect_leaks=0, halt_on_error=1", "tsan": "-Zsanitizer=thread -Zbuild-std, halt_on_error=0", "memcheck": "valgrind --tool=memcheck on the plain release profile"}[lane])],
+        "wall_s": 0,
+    }
+    broken = [r for r in results if "crashed" in r or "watchdog" in r]
+    return [lane_result] + broken
+
+
+def _collect(procs, lane, reports, results, inv, tier):
+    deadline = time.time() + inv.get("timeout", 1500 if tier == "quick" else 7200)
+    for p, out, logpath, log, cmd, run in procs:
+        try:
+            p.wait(timeout=max(1, deadline - time.time()))
+            timed_out = False
+        except subprocess.TimeoutExpired:
+            sig = stall_signature(p.pid)
+            p.kill()
+            p.wait()
+            timed_out = True
+            results.append({"engine": f"lane:{lane}:{run['engine']}", "watchdog": sig, "log": "", "cmd": cmd})
+        log.close()
+        text = open(logpath, errors="replace").read()
+        parsed = {"asan": parse_asan, "tsan": parse_tsan, "miri": parse_miri, "memcheck": parse_memcheck}[lane](text)
+        for rep in parsed:
+            rep["cmd"] = cmd
+        reports.extend(parsed)
+        if timed_out:
+            continue
+        if os.path.exists(out):
+            try:
+                with open(out) as f:
+                    r = json.load(f)
+                r["engine"] = f"{lane}:{r.get('engine')}"
+                results.append(r)
+                continue
+            except ValueError:
+                pass
+        # no engine output: abnormal termination. A sanitizer abort after a report is already a report.
+        if not parsed and p.returncode != 0:
+            if p.returncode < 0 and -p.returncode in (4, 6, 7, 11):
+                # SIGILL / SIGABRT / SIGBUS / SIGSEGV of an instrumented engine without a tool report
+                results.append({"engine": f"{lane}:{run['engine']}", "evaluations": 0, "distinct_nontrivial": 0,
+                                "violations": [{"sig": f"{lane}:signal-{-p.returncode}:{run['engine']}", "msg": f"{run['engine']} died with signal {-p.returncode} under {lane}: {text[-1500:]}",
+                                                "replay": {"engine": f"lane:{lane}", "cmd": cmd}}]})
+            else:
+                results.append({"engine": f"lane:{lane}:{run['engine']}", "crashed": p.returncode, "log": text[-3000:], "cmd": cmd})
